@@ -792,6 +792,9 @@ func runC07(c *Ctx) {
 			if unspill(r.Results[0]) != unspill(a0.Common().Args[0]) {
 				bad = "the returned key is not the decoded one"
 			}
+			if !instrDominates(call, r) {
+				bad = "a return at " + p.InstrPos(r) + " is reachable without the decoding call: the map must be defined for all 2^256 strings (no representative is refused or special-cased)"
+			}
 		}
 	}
 	if bad != "" {
